@@ -38,6 +38,11 @@ type InsertResult = Result<(RegistrationToken, Option<Box<dyn Held>>), (Box<dyn 
 
 pub trait Insertable {
     fn insert(self: Box<Self>, h: &Handle, w: &W, held: bool) -> InsertResult;
+    /// `Generic::unwrap()` on every child (composites only): gives the fds back, deleting them from the poller if the
+    /// Generic still believes it is registered
+    fn unwrap_children(&mut self) -> bool {
+        false
+    }
 }
 
 pub trait Held {
@@ -94,11 +99,22 @@ impl Drop for CbGuard {
     }
 }
 
+thread_local! {
+    /// the next non-held insertion goes through the `impl EventSource for Box<T>` forwarding impl
+    pub static BOXED: Cell<bool> = const { Cell::new(false) };
+}
+
 fn insert_generic<S, F>(src: S, cb: F, h: &Handle, held: bool) -> InsertResult
 where
     S: EventSource + DeadlineAccess + Insertable + 'static,
     F: FnMut(S::Event, &mut S::Metadata, &mut ()) -> S::Ret + 'static,
 {
+    if !held && BOXED.with(|b| b.replace(false)) {
+        return match h.insert_source(Box::new(src), cb) {
+            Ok(t) => Ok((t, None)),
+            Err(e) => Err((e.inserted as Box<dyn Insertable>, e.error)),
+        };
+    }
     if held {
         let d = Dispatcher::new(src, cb);
         match h.register_dispatcher(d.clone()) {
@@ -221,6 +237,14 @@ impl<const LIFE: bool> Insertable for Probe<Timer, LIFE> {
 }
 
 impl<const LIFE: bool> Insertable for Probe<Composite, LIFE> {
+    fn unwrap_children(&mut self) -> bool {
+        for ch in std::mem::take(&mut self.inner.children) {
+            if let Child::Plain(g) = ch {
+                drop(g.unwrap());
+            }
+        }
+        true
+    }
     fn insert(self: Box<Self>, h: &Handle, w: &W, held: bool) -> InsertResult {
         let s = self.id;
         let w = w.clone();
@@ -641,7 +665,10 @@ pub fn exec_op(w: &W, lp: Option<&mut Option<EventLoop<'static, ()>>>, op: &Valu
                 (src.pending.take(), src.spec["held"].as_u64().unwrap_or(0) != 0)
             };
             let (Some(p), Some(h)) = (pending, handle) else { done!("nosrc") };
+            let boxed = w.borrow().srcs.get(&s).map(|x| x.spec["boxed"].as_u64().unwrap_or(0) != 0).unwrap_or(false);
+            BOXED.with(|b| b.set(boxed && !held));
             let r = guard(|| p.insert(&h, w, held));
+            BOXED.with(|b| b.set(false));
             match r {
                 Ok(Ok((tok, held))) => {
                     let mut wb = w.borrow_mut();
@@ -1006,6 +1033,25 @@ pub fn exec_op(w: &W, lp: Option<&mut Option<EventLoop<'static, ()>>>, op: &Valu
             let r = if held.is_some() { "ok" } else { "nohandle" };
             drop(held);
             done!(r)
+        }
+        "unwrap" => {
+            // Generic::unwrap() on the children of a composite that is not inserted, then the rest of it is dropped
+            let p = w.borrow_mut().srcs.get_mut(&s.unwrap()).and_then(|x| x.pending.take());
+            match p {
+                Some(mut p) => {
+                    let ok = guard(|| p.unwrap_children());
+                    drop(p);
+                    match ok {
+                        Ok(true) => done!("ok"),
+                        Ok(false) => done!("unsupported"),
+                        Err(m) => {
+                            ret["msg"] = json!(m);
+                            done!("panic")
+                        }
+                    }
+                }
+                None => done!("nohandle"),
+            }
         }
         "drop_pending" => {
             let p = w.borrow_mut().srcs.get_mut(&s.unwrap()).and_then(|x| x.pending.take());
